@@ -90,12 +90,22 @@ func parseLit(s string) litJ {
 	return litJ{Form: "dec", Digs: []int{}}
 }
 
+var fullDigits = map[string]int{"D": 16, "H": 4, "K": 20, "L": 32, "M": 32}
+
+// isShort reports whether a hexadecimal literal has fewer digits than the full form.
+func isShort(l litJ) bool { return l.Form != "dec" && len(l.Digs) < fullDigits[l.Form] }
+
+// formName names the spelling class of a literal; a short spelling of the four lettered forms is a
+// class of its own (the unpadded double format is what LLVM itself prints, it stays one class).
 func formName(l litJ) string {
 	switch l.Form {
 	case "dec":
 		return "decimal"
 	case "D":
 		return "0x(double-format)"
+	}
+	if isShort(l) {
+		return "0x" + l.Form + "(short)"
 	}
 	return "0x" + l.Form
 }
@@ -216,7 +226,7 @@ func (c *checker) judge(ins []input, label string) {
 		}
 		if cs.lib.problem != "" && cs.lib.out == "" {
 			sig := fmt.Sprintf("C10|%s|%s|%s", q.kind, formName(il), cs.lib.problem)
-			if q.kind == "ppc_fp128" && strings.HasPrefix(cs.lib.problem, "panic") {
+			if q.kind == "ppc_fp128" && strings.HasSuffix(cs.lib.problem, "panic") && !isShort(il) {
 				if s := classifyPPCPanic(cs.inR.bits); s != "" {
 					sig = s
 				}
@@ -429,6 +439,7 @@ func Run(tier, replay string) {
 		nRand, nDec = 100000, 40000
 	}
 	c.judge(randomPatterns(rng, nRand), "random-patterns")
+	c.judge(shortSpellings(rng, nRand/3), "short-spellings")
 	c.judge(decimalInputs(rng, nDec), "decimal-inputs")
 	c.finish(nHalf == 65536)
 }
